@@ -148,7 +148,18 @@ DEXPRS = [
     ("float", "float", "1.5 + 2.0", "3.5"),
     ("tuple", "(int, string)", '(hlp(), "x")', "(40, x)"),
     ("option", "option<int>", "option.some(hlp())", "some(40)"),
+    # generic functions of the prelude (declared in a file that is checked later)
+    ("prelude-generic-call", "int", "hash_combine(0, 0) - hash_combine(0, 0) + hlp()", "40"),
+    ("prelude-generic-string", "string", 'format_append("a", hlp())', "a40"),
+    ("prints-while-evaluated", "int", "{\n  println(7)\n  6\n}", "6", "7\n"),
+    ("late-generic-call", "int", "lateg(hlp()) + lateg2(1, \"s\")", "41"),
 ]
+LATE_HELPERS = """fn lateg(x: T) -> T = x
+fn lateg2(x: T, y: U ToString) -> T {
+  let s = "" .. y
+  x
+}
+"""
 
 
 def dexpr_decl(kind, tag, layout, ty, src):
@@ -186,17 +197,23 @@ def dexpr_cases():
     cases = []
     n = 0
     for kind in KINDS:
-        for (label, ty, src, shown) in DEXPRS:
+        for dx in DEXPRS:
+            (label, ty, src, shown), out_before = dx[:4], (dx[4] if len(dx) > 4 else "")
             for layout in (0, 1):
                 n += 1
                 d, callee, names = dexpr_decl(kind, "x%d" % n, layout, ty, src)
-                pre = "7:" if kind == "member" else ""
+                pre = out_before + ("7:" if kind == "member" else "")
                 if layout == 0:
                     calls = [("omit", "1", "1,%s,5" % shown), ("omit-then-named", "1, pc = 6", "1,%s,6" % shown),
                              ("all-named-omit", "pc = 6, pa = 2", "2,%s,6" % shown), ("written-out", "1, %s" % src, "1,%s,5" % shown),
                              ("written-out-named", "pb = %s, pa = 3" % src, "3,%s,5" % shown)]
                 else:
                     calls = [("omit-all", "", "%s,5" % shown), ("omit-first", "pb = 1", "%s,1" % shown), ("written-out", src, "%s,5" % shown)]
+                if "lateg" in src:
+                    d = d + LATE_HELPERS.replace("lateg", "lateg%d_" % n)
+                    d = d.replace("lateg(", "lateg%d_(" % n).replace("lateg2(", "lateg%d_2(" % n)
+                    src_n = src.replace("lateg(", "lateg%d_(" % n).replace("lateg2(", "lateg%d_2(" % n)
+                    calls = [(cl, a.replace(src, src_n), e) for (cl, a, e) in calls]
                 for (cl, argtext, exp) in calls:
                     if "\n" in argtext:
                         continue  # multi-line expressions are only used as declared defaults
